@@ -1,5 +1,6 @@
 import PvModel.Props.C09
 import PvModel.Props.C09Sequence
+import PvModel.Props.C09Rel
 #print axioms Pv.C09_lazy
 #print axioms Pv.C09_take_mono
 #print axioms Pv.C09_take_prefix
@@ -10,3 +11,4 @@ import PvModel.Props.C09Sequence
 #print axioms Pv.C09_order_independent_fd
 #print axioms Pv.C09_sequence_order_free
 #print axioms Pv.C09_answers_order_free
+#print axioms Pv.C09_sequence_order_free_rel
